@@ -64,6 +64,8 @@ func runC26(c *Ctx) {
 			e.sub(func() { e.volume(vi*100+ri, v, p) })
 		}
 	}
+	// a very small rate at volume: the largest filters of the quick tier (about 1.2 Mbit)
+	e.sub(func() { e.volume(9000, 50000, 0.00001) })
 	e.emptySets()
 	// (c) many tiny filters: the mean rate over a few hundred block filters holding 1..3 entries
 	for i, cfg := range []struct {
@@ -723,6 +725,34 @@ func (e *c26Env) volume(idx, T int, p float64) {
 			rows = append(rows, w.addRow(map[string]any{"msg": b.String(), "p": parts[len(rows)%len(parts)]}))
 		}
 		return rows
+	}
+	if T >= 3000 {
+		// a flush that fails while a block's row data is being written, before the measured flushes:
+		// nothing the failed flush built may leak into the filters of later files
+		w.store.mu.Lock()
+		w.store.fault = func(kind string, nth int, ptr string) error {
+			if kind == "Write" {
+				return errInjected
+			}
+			return nil
+		}
+		w.store.mu.Unlock()
+		var junk []map[string]any
+		for i := 0; i < T/4; i += 40 {
+			var b bytes.Buffer
+			for j := i; j < i+40; j++ {
+				fmt.Fprintf(&b, "junk%d_%d ", tag, j)
+			}
+			junk = append(junk, map[string]any{"msg": b.String(), "p": []string{"A", "B"}[len(junk)%2]})
+		}
+		must(eng.IngestRows(w.ctx, junk, make(chan error, 1)))
+		if ferr := eng.Flush(w.ctx); ferr == nil {
+			c.mismatch("c26-fault-not-injected", scen+": the flush with a failing Write did not fail", nil)
+		}
+		w.store.mu.Lock()
+		w.store.fault = nil
+		w.store.mu.Unlock()
+		c.dist("volume_failed_flush_first", "yes")
 	}
 	if T == 1 {
 		// exactly one entry per class: a single row with a single token and no id
